@@ -270,6 +270,17 @@ pub fn credential_validation(cex: &Value) -> Result<String, String> {
         ("index as a JSON number, SkipUnsupported", status(serde_json::json!(42), "42", "RevocationBitmap2022"), StatusCheck::SkipUnsupported, false),
         ("index property and id query disagree, SkipUnsupported", status(serde_json::json!("42"), "7", "RevocationBitmap2022"), StatusCheck::SkipUnsupported, false),
         ("index property and id query disagree, strict", status(serde_json::json!("42"), "7", "RevocationBitmap2022"), StatusCheck::Strict, false),
+        // other query parameters in front of / behind the index query do not switch the comparison off
+        ("index query after another parameter, disagreeing with the property (property names a valid index)", status(serde_json::json!("7"), "42&x=1", "RevocationBitmap2022").as_object().map(|o| { let mut o = o.clone(); o.insert("id".into(), serde_json::json!(format!("{ISSUER}?versionId=1&index=42#revocation"))); serde_json::Value::Object(o) }).unwrap(), StatusCheck::Strict, false),
+        ("index query before another parameter, disagreeing", status(serde_json::json!("7"), "42&versionId=1", "RevocationBitmap2022"), StatusCheck::Strict, false),
+        ("two index queries, the second disagreeing", status(serde_json::json!("7"), "7&index=42", "RevocationBitmap2022"), StatusCheck::Strict, false),
+        ("index query after another parameter, agreeing", status(serde_json::json!("7"), "7", "RevocationBitmap2022").as_object().map(|o| { let mut o = o.clone(); o.insert("id".into(), serde_json::json!(format!("{ISSUER}?versionId=1&index=7#revocation"))); serde_json::Value::Object(o) }).unwrap(), StatusCheck::Strict, true),
+        // every u32 is an index: ten-digit values, the largest one, leading zeros as u32's parser takes them
+        ("index 1000000000 (not revoked)", status(serde_json::json!("1000000000"), "1000000000", "RevocationBitmap2022"), StatusCheck::Strict, true),
+        ("index 4294967295 (not revoked)", status(serde_json::json!("4294967295"), "4294967295", "RevocationBitmap2022"), StatusCheck::Strict, true),
+        ("index 999999999 (not revoked)", status(serde_json::json!("999999999"), "999999999", "RevocationBitmap2022"), StatusCheck::Strict, true),
+        ("index 4294967296 (not a u32)", status(serde_json::json!("4294967296"), "4294967296", "RevocationBitmap2022"), StatusCheck::Strict, false),
+        ("index 0000000042 (revoked, written with leading zeros)", status(serde_json::json!("0000000042"), "42", "RevocationBitmap2022"), StatusCheck::Strict, false),
         ("other status type, SkipUnsupported", status(serde_json::json!("42"), "42", "SomethingElse2020"), StatusCheck::SkipUnsupported, true),
         ("other status type, strict", status(serde_json::json!("42"), "42", "SomethingElse2020"), StatusCheck::Strict, false),
       ];
@@ -288,7 +299,60 @@ pub fn credential_validation(cex: &Value) -> Result<String, String> {
     let stranger = Url::parse(OTHER).unwrap();
     expect("subject is holder (AlwaysSubject)", run(&good, &issuer, &base().subject_holder_relationship(holder.clone(), SubjectHolderRelationship::AlwaysSubject), FailFast::FirstError), true);
     expect("subject is not holder (AlwaysSubject)", run(&good, &issuer, &base().subject_holder_relationship(stranger.clone(), SubjectHolderRelationship::AlwaysSubject), FailFast::FirstError), false);
-    expect("subject is not holder (Any)", run(&good, &issuer, &base().subject_holder_relationship(stranger, SubjectHolderRelationship::Any), FailFast::FirstError), true);
+    expect("subject is not holder (Any)", run(&good, &issuer, &base().subject_holder_relationship(stranger.clone(), SubjectHolderRelationship::Any), FailFast::FirstError), true);
+    // both nbf and iat present: nbf is the issuance date - for the bound and in what is handed back
+    {
+      let c = credential(ISSUER, HOLDER, ts(t0), Some(ts(t0 + 1000)));
+      let basev: serde_json::Value = serde_json::from_str(&c.serialize_jwt(None).unwrap()).unwrap();
+      for (nbf, iat, want) in [(t0 + 500, t0 - 500, false), (t0 - 500, t0 + 500, true), (t0, t0, true), (t0 + 1, t0, false), (t0, t0 + 1, true)] {
+        let mut v = basev.clone();
+        v["nbf"] = serde_json::json!(nbf);
+        v["iat"] = serde_json::json!(iat);
+        let jwt = sign_jwt(&v.to_string(), Some(&kid), None, &method_key(ISSUER, "#assert"));
+        if let Ok(d) = expect(&format!("[dates] nbf = bound{:+}, iat = bound{:+}", nbf - t0, iat - t0), run(&jwt, &issuer, &base(), FailFast::FirstError), want) {
+          if d.credential.issuance_date != ts(nbf) {
+            log.borrow_mut().push(format!("[dates] nbf and iat present: the credential handed back is issued at {:?}, nbf says {:?}", d.credential.issuance_date, ts(nbf)));
+          }
+        }
+      }
+    }
+    // the whole relationship table: subject id (holder / someone else / absent) x nonTransferable (absent / false / true) x relation
+    {
+      for (sname, sid) in [("the holder", Some(HOLDER)), ("someone else", Some(OTHER)), ("absent", None)] {
+        for nt in [None, Some(false), Some(true)] {
+          let mut v = serde_json::json!({
+            "@context": ["https://www.w3.org/2018/credentials/v1"],
+            "id": "https://example.edu/credentials/1",
+            "type": ["VerifiableCredential"],
+            "issuer": ISSUER,
+            "issuanceDate": ts(t0).to_rfc3339(),
+            "expirationDate": ts(t0 + 1000).to_rfc3339(),
+            "credentialSubject": {"degree": "x"}
+          });
+          if let Some(id) = sid {
+            v["credentialSubject"]["id"] = serde_json::json!(id);
+          }
+          if let Some(b) = nt {
+            v["nonTransferable"] = serde_json::json!(b);
+          }
+          let Ok(c) = Credential::<Object>::from_json_value(v) else {
+            continue;
+          };
+          let jwt = sign_jwt(&c.serialize_jwt(None).unwrap(), Some(&kid), None, &method_key(ISSUER, "#assert"));
+          for (rname, rel) in [("AlwaysSubject", SubjectHolderRelationship::AlwaysSubject), ("SubjectOnNonTransferable", SubjectHolderRelationship::SubjectOnNonTransferable), ("Any", SubjectHolderRelationship::Any)] {
+            let is_holder = sid == Some(HOLDER);
+            let want = match rname {
+              "AlwaysSubject" => is_holder,
+              "SubjectOnNonTransferable" => is_holder || nt != Some(true),
+              _ => true,
+            };
+            for ff in [FailFast::FirstError, FailFast::AllErrors] {
+              expect(&format!("[unit] holder relationship {rname}: subject id is {sname}, nonTransferable {nt:?}"), run(&jwt, &issuer, &base().subject_holder_relationship(holder.clone(), rel), ff), want);
+            }
+          }
+        }
+      }
+    }
     // tampering
     let mut t = good.as_str().to_owned().into_bytes();
     let n = t.len();
@@ -387,6 +451,12 @@ pub fn presentation_validation(cex: &Value) -> Result<String, String> {
     v.as_object_mut().unwrap().remove("jti");
     expect("[consistency] vp.id present, jti absent", run(&sign_jwt(&v.to_string(), Some(&kid), None, &method_key(HOLDER, "#auth")), &holder, &base()), false);
     let mut v: serde_json::Value = serde_json::from_str(&claims).unwrap();
+    v["vp"]["holder"] = serde_json::json!(format!("{}/", v["iss"].as_str().unwrap()));
+    expect("[consistency] vp.holder equal to iss up to a trailing slash", run(&sign_jwt(&v.to_string(), Some(&kid), None, &method_key(HOLDER, "#auth")), &holder, &base()), false);
+    let mut v: serde_json::Value = serde_json::from_str(&claims).unwrap();
+    v["vp"]["id"] = serde_json::json!(format!("{}/", v["jti"].as_str().unwrap()));
+    expect("[consistency] vp.id equal to jti up to a trailing slash", run(&sign_jwt(&v.to_string(), Some(&kid), None, &method_key(HOLDER, "#auth")), &holder, &base()), false);
+    let mut v: serde_json::Value = serde_json::from_str(&claims).unwrap();
     v["vp"]["holder"] = v["iss"].clone();
     expect("[consistency] vp.holder equal to iss", run(&sign_jwt(&v.to_string(), Some(&kid), None, &method_key(HOLDER, "#auth")), &holder, &base()), true);
     // numeric dates of the presentation claims
@@ -406,6 +476,28 @@ pub fn presentation_validation(cex: &Value) -> Result<String, String> {
         v["iat"] = serde_json::json!(n);
       }
       expect(name, run(&sign_jwt(&v.to_string(), Some(&kid), None, &method_key(HOLDER, "#auth")), &holder, &base()), want);
+    }
+    // unset bounds default to the current time, each on its own (the other bound has no say)
+    {
+      let now = Timestamp::now_utc().to_unix();
+      let day = 86400;
+      let mk = |issued: i64, expires: i64| {
+        let o = JwtPresentationOptions::default().issuance_date(ts(issued)).expiration_date(ts(expires));
+        sign_jwt(&pres.serialize_jwt(&o).unwrap(), Some(&kid), None, &method_key(HOLDER, "#auth"))
+      };
+      let plain = || JwtPresentationValidationOptions::default();
+      let future_issued = mk(now + 10 * day, now + 100 * day);
+      let current = mk(now - 10 * day, now + 10 * day);
+      let expired = mk(now - 100 * day, now - 10 * day);
+      expect("[default-bounds] issued in the future, no bounds configured", run(&future_issued, &holder, &plain()), false);
+      expect("[default-bounds] issued in the future, only an expiry bound (later than the issuance) configured", run(&future_issued, &holder, &plain().earliest_expiry_date(ts(now + 50 * day))), false);
+      expect("[default-bounds] issued in the future, only an expiry bound in the past configured", run(&future_issued, &holder, &plain().earliest_expiry_date(ts(now - 50 * day))), false);
+      expect("[default-bounds] current presentation, no bounds configured", run(&current, &holder, &plain()), true);
+      expect("[default-bounds] current presentation, only an expiry bound in the past configured", run(&current, &holder, &plain().earliest_expiry_date(ts(now - 50 * day))), true);
+      expect("[default-bounds] current presentation, only an issuance bound in the future configured", run(&current, &holder, &plain().latest_issuance_date(ts(now + 50 * day))), true);
+      expect("[default-bounds] expired presentation, no bounds configured", run(&expired, &holder, &plain()), false);
+      expect("[default-bounds] expired presentation, only an issuance bound (earlier than the expiry) configured", run(&expired, &holder, &plain().latest_issuance_date(ts(now - 50 * day))), false);
+      expect("[default-bounds] expired presentation, only an issuance bound in the future configured", run(&expired, &holder, &plain().latest_issuance_date(ts(now + 50 * day))), false);
     }
     // members taken from the serialisation options are present exactly when the option is (no default is filled in)
     for mask in 0..16u8 {
@@ -613,6 +705,9 @@ pub fn claims(cex: &Value) -> Result<String, String> {
       ("vc.issuer as the plain URL of an iss in object form", Box::new(|v| v["vc"]["issuer"] = serde_json::json!(ISSUER)), false),
       ("vc.id equal", Box::new(|v| v["vc"]["id"] = v["jti"].clone()), true),
       ("vc.id different", Box::new(|v| v["vc"]["id"] = serde_json::json!("http://example.edu/credentials/1")), false),
+      ("vc.id equal to jti up to a trailing slash", Box::new(|v| v["vc"]["id"] = serde_json::json!(format!("{}/", v["jti"].as_str().unwrap()))), false),
+      ("vc.id equal to jti up to a dropped trailing slash", Box::new(|v| { let j = v["jti"].as_str().unwrap().to_owned(); v["jti"] = serde_json::json!(format!("{j}/")); v["vc"]["id"] = serde_json::json!(j); }), false),
+      ("vc.credentialSubject.id equal to sub up to trailing slashes", Box::new(|v| v["vc"]["credentialSubject"]["id"] = serde_json::json!(format!("{}//", v["sub"].as_str().unwrap()))), false),
       ("vc.id present, jti absent", Box::new(|v| { v["vc"]["id"] = v["jti"].clone(); v.as_object_mut().unwrap().remove("jti"); }), false),
       ("vc.issuanceDate equal", Box::new(|v| v["vc"]["issuanceDate"] = serde_json::json!("2010-01-01T19:23:24Z")), true),
       ("vc.issuanceDate different", Box::new(|v| v["vc"]["issuanceDate"] = serde_json::json!("2010-01-01T19:23:25Z")), false),
